@@ -1076,12 +1076,13 @@ func emptyPrinterPool() {
 
 func padStream(r *lib.RNG) {
 	defer func(p int) { primeLen = p }(primeLen)
-	// in-program first, on an emptied pool: every printer made from here on is grown by the program that makes
-	// it, so no printer whose capacity is exactly L (left by an "as-is" run) can be handed to these programs
+	// in-program first, each limit on an emptied pool: every printer made from there on is grown by the program
+	// that makes it, so no printer whose capacity is exactly L (an "as-is" run can leave one) is handed to these
+	// programs. Their inputs are self-contained scripts (at most 3 violations per signature are kept: these).
 	modes := []string{"in-program", "primed", "as-is"}
-	for _, L := range []int{8, 9, 16, 20, 64, 100} {
-		c := same(L)
-		for _, mode := range modes {
+	for _, mode := range modes {
+		for _, L := range []int{8, 9, 16, 20, 64, 100} {
+			c := same(L)
 			if mode != "primed" { // "as-is": new printers first, then whatever the earlier as-is cases left
 				emptyPrinterPool()
 			}
